@@ -75,7 +75,7 @@ Proof.
 Qed.
 
 (* ---------- unquoted names ---------- *)
-(* facts about the character classes REGENERATED from valid_cql3_word_re: they break if the regex admits
+(* facts about the character classes REGENERATED from valid_cql3_word_re: they break if the regex accepts
    anything CQL would not read back unchanged *)
 Lemma word_first_ok : forall c, in_ranges word_re_first c = true -> is_lower c = true.
 Proof.
